@@ -558,7 +558,12 @@ where
         // We cannot use result of `peek()` directly because of borrow checker
         let _ = self.map.de.peek()?;
         match self.map.de.last_peeked() {
-            DeEvent::Text(t) if t.is_empty() => visitor.visit_none(),
+            DeEvent::Text(t) if t.is_empty() => {
+                // Consume the empty text, otherwise a sequence of options
+                // would see it again and again and never end
+                self.map.de.next()?;
+                visitor.visit_none()
+            }
             DeEvent::Start(start) if self.map.should_skip_subtree(start) => {
                 self.map.de.skip_next_tree()?;
                 visitor.visit_none()
